@@ -15,6 +15,17 @@ so a name may be stored only by the one primitive (whose callers R3 vets) and on
 inside the writing service's own environment.  A writer keyed on a profile *name* alone (e.g. "rewrite the setting
 from the old to the new name when a profile is renamed") moves the pointer of the current environment on behalf of a
 profile of any environment.  Clears (DELETE) are always allowed: "no active profile" satisfies the statement.
+
+Which environment a pointer-moving service is bound to (R6): R3 lets only the service handed out by
+`EnvService.current_auth_service()` move the pointer, because it is bound to `get_current_environment()`.  That is only
+worth something if the binding is read from the settings row *at the time of the call*.  A value computed from the stored
+current environment and kept across calls (object attribute, module global, memoising decorator) must therefore be dropped
+by every method that can change the current environment — including the indirect ones: `delete_environment` only
+delegates, and the callee falls back to the default environment when the deleted one was current.  Decided: the set of
+functions whose result derives from the settings row (data flow through locals, attributes and globals), the set of
+methods that can change it (call graph), the kept values, and, per (kept value, changing method), that no normal path
+through the change reaches the exit without a reset.  On the confirmed tree nothing is kept (3 readers recompute per
+call; 5 changing methods inventoried).
 """
 
 from __future__ import annotations
@@ -23,7 +34,7 @@ import ast
 import re
 from pathlib import Path
 
-from ..astx import call_name, calls_named, dotted, enclosing_stmt, expand, kwarg, last, reaching_def
+from ..astx import call_name, calls_named, dep_slice, dotted, enclosing_stmt, expand, kwarg, last, reaching_def
 from ..cfg import CFG
 from ..index import AnchorError, FuncNode, _baseline_helpers, _set_parents, enclosing_class, enclosing_function, parent, qualname_of
 from ..inline import Inliner
@@ -56,11 +67,22 @@ EXPLANATION = (
     "Inside AuthService the name handed to the primitive is, on every assignment that can reach it, either a parameter of the method (explicit selection; internal `self.<method>(…)` callers are followed) "
     "or taken from a lookup/creation restricted to the service's environment (a config-manager call that receives `self.env.api_url`, or a method of the service all of whose results are such calls); "
     "a name taken from an environment-blind lookup (by id, a literal, …) is reported. "
+    "R6 (the service that moves the pointer is bound to the environment that is current now): the functions whose result is computed from the stored current environment are found by data flow "
+    "(the SELECT of the settings row; a function is a reader when a returned value may depend — through locals, `self` attributes, module globals — on that SELECT or on a call of a reader): today "
+    "ConfigManager.get_current_environment, EnvService.get_current_environment, EnvService.current_auth_service. The methods that can change the current environment are found on the call graph "
+    "(own write of the settings key, or a call of such a method; receivers are typed through the annotations the code gives — `Callable[[], ConfigManager]`, return annotations — and matched by name otherwise): today "
+    "ConfigManager.set_settings_current_environment / delete_environment and EnvService.switch_environment / create_or_update_environment / delete_environment (the last only through its callee's fall-back to the default environment). "
+    "A *kept value* is an attribute / module global that flows into a reader's result and is either assigned a value computed from the current environment, or assigned outside __init__ and returned as a value; or the result of a reader under "
+    "functools.cache / lru_cache / cached_property. For every kept value and every changing method of its holder, no normal path entry -> change -> exit may avoid a reset: assignment of a constant / empty container or of a value not computed from "
+    "an environment read, `del`, `.clear()`, `.cache_clear()`, a call of a method of the same class that always resets; a re-computation from the settings row counts only after the change. A reset under a test is not evaluated and is reported. "
+    "Today nothing is kept: each reader carries an obligation `recomputed-per-call`. A kept value whose holder has no changing method cannot be dropped at all and is reported. "
+    "Not decided by R6: several EnvService / ConfigManager objects in one process (a reset reaches only the object it is written on), code outside the three anchored modules that changes the environment without going through EnvService, "
+    "a refill of the kept value between an early reset and the change, removal of the database file (destroy_database). "
     "Not decided: interactive CLI flows (which profile the user is offered), concurrent llamactl processes, crash between the two settings writes."
 )
 TRUSTED = ["CPython ast", "sqlite3 executes the literal statements as written"]
 LEVEL_NOTE = "necessary conditions on the shape of the settings writers/readers; histories are covered inductively (each operation preserves the pairing)"
-TECHNIQUE = "CFG must-pass pairing over settings-key writers; mini SQL reader; who-may-call inventory"
+TECHNIQUE = "CFG must-pass pairing over settings-key writers; mini SQL reader; who-may-call inventory; call-graph inventory of environment changers x data-flow inventory of kept environment-derived values"
 
 PKG = "llama_agents.cli"
 CFGMOD = "llama_agents.cli.config._config"
@@ -73,6 +95,18 @@ SET_PROFILE = "set_settings_current_profile"
 FIXTURE = "fixtures/c37/planted.py"
 NOEXC = ("exc", "cancel")
 COND_FLOOR = "environment changes whose only clear is value-dependent"
+FIXTURE6 = "fixtures/c37/stale_cache.py"
+# obligation of R6 on the fixture -> expected verdict
+FIX6_EXPECT = {
+    "kept-value-dropped:ConfigManager._current@set_settings_current_environment": True,
+    "kept-value-dropped:ConfigManager._current@delete_environment": True,  # reset inside the fall-back branch, after the write: on every path through the change
+    "kept-value-dropped:EnvService._auth_service@switch_environment": True,
+    "kept-value-dropped:EnvService._auth_service@create_or_update_environment": False,  # reset under `if env.requires_auth`
+    "kept-value-dropped:EnvService._auth_service@delete_environment": False,  # the seed's form: the change happens in the callee
+    "kept-value-dropped:EnvService.get_current_environment()@switch_environment": False,  # lru_cache never cleared
+    "kept-value-dropped:EnvService.get_current_environment()@create_or_update_environment": False,
+    "kept-value-dropped:EnvService.get_current_environment()@delete_environment": False,
+}
 
 
 # ------------------------------------------------------------------------------ mini SQL reader
@@ -845,6 +879,495 @@ def eval_rules(mods: dict[str, tuple[object, ast.AST]], all_mods: list[tuple[obj
     yield ("floor", "C37.R5", "names handed to the primitive inside AuthService", n_names)
 
 
+# ------------------------------------------------------------------------------ R6: nothing computed from the current environment outlives a change of it
+MEMO_DECORATORS = ("cache", "lru_cache", "cached_property")
+_FILLS = ("append", "add", "update", "setdefault", "insert", "extend", "appendleft", "__setitem__")
+READ_FLOOR = "functions whose result is computed from the stored current environment (settings row -> get_current_environment -> current_auth_service)"
+CHG_FLOOR = "methods of ConfigManager / EnvService that can change the current environment (own settings write, or through a callee)"
+SLOT_FLOOR = "values computed from the current environment and kept across calls (attribute, module global, memoising decorator)"
+
+
+class _F:
+    """A module-level function, or a method of a module-level class, of the anchored modules."""
+
+    def __init__(self, m, tree: ast.AST, cls: ast.ClassDef | None, fn: ast.AST):
+        self.m, self.tree, self.cls, self.fn = m, tree, cls, fn
+        self.qn = f"{cls.name}.{fn.name}" if cls is not None else fn.name
+
+
+class _Slot:
+    def __init__(self, kind: str, key: tuple, holder: ast.AST, name: str, m, filled: str):
+        self.kind, self.key, self.holder, self.name, self.m, self.filled = kind, key, holder, name, m, filled
+        self.deco = self.fname = ""
+        self.label = f"{holder.name}.{name}" if isinstance(holder, ast.ClassDef) else name
+
+
+def _self_attr(e: ast.AST, attr: str | None = None) -> bool:
+    return isinstance(e, ast.Attribute) and isinstance(e.value, ast.Name) and e.value.id == "self" and (attr is None or e.attr == attr)
+
+
+def _pairs(target: ast.AST, value: ast.AST) -> list[tuple[ast.AST, ast.AST]]:
+    if isinstance(target, (ast.Tuple, ast.List)):
+        if isinstance(value, (ast.Tuple, ast.List)) and len(value.elts) == len(target.elts):
+            return [p for t, v in zip(target.elts, value.elts) for p in _pairs(t, v)]
+        return [p for t in target.elts for p in _pairs(t, value)]
+    return [(target, value)]
+
+
+def _fresh_constant(e: ast.AST) -> bool:
+    """A value that carries nothing of any environment: a literal, an empty container."""
+    if isinstance(e, ast.Constant):
+        return True
+    if isinstance(e, (ast.List, ast.Tuple, ast.Set)) and not e.elts:
+        return True
+    if isinstance(e, ast.Dict) and not e.keys:
+        return True
+    return isinstance(e, ast.Call) and isinstance(e.func, ast.Name) and e.func.id in ("dict", "list", "set", "tuple", "OrderedDict") and not e.args and not e.keywords
+
+
+class Freshness:
+    """Call graph (receivers typed through annotations where the code gives them, by name otherwise), the functions that
+    can change the stored current environment, the functions whose result is computed from it, and the places where such a
+    result is kept across calls."""
+
+    def __init__(self, mods: list[tuple[object, ast.AST]]):
+        self.fns: list[_F] = []
+        self.classes: dict[str, ast.ClassDef] = {}
+        self.globals_decl: dict[int, set[str]] = {}
+        self.module_insts: dict[int, dict[str, str]] = {}
+        seen: set[int] = set()
+        for m, tree in mods:
+            if id(tree) in seen:
+                continue
+            seen.add(id(tree))
+            for st in getattr(tree, "body", []):
+                if isinstance(st, FuncNode):
+                    self.fns.append(_F(m, tree, None, st))
+                elif isinstance(st, ast.ClassDef):
+                    self.classes.setdefault(st.name, st)
+                    for s2 in st.body:
+                        if isinstance(s2, FuncNode):
+                            self.fns.append(_F(m, tree, st, s2))
+            self.globals_decl[id(tree)] = {n for g in ast.walk(tree) if isinstance(g, ast.Global) for n in g.names}
+        for m, tree in mods:
+            insts = self.module_insts.setdefault(id(tree), {})
+            for st in getattr(tree, "body", []):
+                if isinstance(st, ast.Assign) and len(st.targets) == 1 and isinstance(st.targets[0], ast.Name) and isinstance(st.value, ast.Call) \
+                        and isinstance(st.value.func, ast.Name) and st.value.func.id in self.classes:
+                    insts[st.targets[0].id] = st.value.func.id
+        self.by_name: dict[str, list[_F]] = {}
+        for f in self.fns:
+            self.by_name.setdefault(f.fn.name, []).append(f)
+        self._stores: dict[tuple, list] = {}
+        self._find_changers()
+        self._find_readers()
+        self._find_slots()
+
+    # ---------------------------------------------------------------- receivers
+    def methods(self, cls: ast.ClassDef) -> list[_F]:
+        return [f for f in self.fns if f.cls is cls]
+
+    def _ann(self, ann: ast.AST | None) -> tuple[str, str] | None:
+        """('inst' | 'factory', class) read off an annotation: K, "K", K | None, Optional[K], Callable[[...], K]."""
+        if ann is None:
+            return None
+        if isinstance(ann, ast.Constant) and isinstance(ann.value, str):
+            try:
+                ann = ast.parse(ann.value, mode="eval").body
+            except SyntaxError:
+                return None
+        if isinstance(ann, (ast.Name, ast.Attribute)):
+            n = last(dotted(ann))
+            return ("inst", n) if n in self.classes else None
+        if isinstance(ann, ast.BinOp) and isinstance(ann.op, ast.BitOr):
+            return self._ann(ann.left) or self._ann(ann.right)
+        if isinstance(ann, ast.Subscript):
+            head = last(dotted(ann.value))
+            if head == "Optional":
+                return self._ann(ann.slice)
+            if head == "Callable" and isinstance(ann.slice, ast.Tuple) and len(ann.slice.elts) == 2:
+                r = self._ann(ann.slice.elts[1])
+                return ("factory", r[1]) if r is not None and r[0] == "inst" else None
+        return None
+
+    def _param_ann(self, fn: ast.AST, name: str) -> tuple[str, str] | None:
+        for a in fn.args.posonlyargs + fn.args.args + fn.args.kwonlyargs:
+            if a.arg == name:
+                return self._ann(a.annotation)
+        return None
+
+    def _attr_type(self, cls: ast.ClassDef, attr: str) -> tuple[str, str] | None:
+        for g, val, st, whole in self.stores(("attr", cls.name, attr)):
+            if not whole:
+                continue
+            if isinstance(st, ast.AnnAssign):
+                r = self._ann(st.annotation)
+                if r is not None:
+                    return r
+            if isinstance(val, ast.Name):
+                r = self._param_ann(g.fn, val.id)
+                if r is not None:
+                    return r
+            if isinstance(val, ast.Call) and isinstance(val.func, ast.Name) and val.func.id in self.classes:
+                return ("inst", val.func.id)
+        return None
+
+    def _type(self, e: ast.AST, f: _F, depth: int = 0) -> tuple[str, str] | None:
+        """What an expression inside f denotes, as far as the code says: ('inst', K) an object of class K,
+        ('factory', K) a callable returning one.  None when it does not say."""
+        if depth > 4:
+            return None
+        if isinstance(e, ast.Name):
+            if e.id in ("self", "cls") and f.cls is not None:
+                return ("inst", f.cls.name)
+            if parent(e) is not None:
+                st = enclosing_stmt(e)
+                d = expand(e, st, depth=3) if st is not None else e
+                if d is not e and not (isinstance(d, ast.Name) and d.id == e.id):
+                    return self._type(d, f, depth + 1)
+            r = self._param_ann(f.fn, e.id)
+            if r is not None:
+                return r
+            if e.id in self.module_insts.get(id(f.tree), {}):
+                return ("inst", self.module_insts[id(f.tree)][e.id])
+            for g in self.by_name.get(e.id, []):
+                if g.cls is None:
+                    r = self._ann(g.fn.returns)
+                    if r is not None and r[0] == "inst":
+                        return ("factory", r[1])
+            if e.id in self.classes:
+                return ("factory", e.id)
+            return None
+        if isinstance(e, ast.Attribute):
+            if _self_attr(e) and f.cls is not None:
+                return self._attr_type(f.cls, e.attr)
+            return None
+        if isinstance(e, ast.Call):
+            t = self._type(e.func, f, depth + 1)
+            if t is not None and t[0] == "factory":
+                return ("inst", t[1])
+            if isinstance(e.func, ast.Attribute):
+                rc = self._type(e.func.value, f, depth + 1)
+                if rc is not None and rc[0] == "inst" and rc[1] in self.classes:
+                    for g in self.methods(self.classes[rc[1]]):
+                        if g.fn.name == e.func.attr:
+                            return self._ann(g.fn.returns)
+            return None
+        return None
+
+    def resolve(self, call: ast.Call, f: _F) -> list[_F]:
+        """The functions of the anchored modules a call may run.  A receiver whose class the code states selects that
+        class's method; an unstated receiver selects every method of that name (over-approximation)."""
+        fn = call.func
+        if isinstance(fn, ast.Name):
+            return [g for g in self.by_name.get(fn.id, []) if g.cls is None]
+        if isinstance(fn, ast.Attribute):
+            cands = [g for g in self.by_name.get(fn.attr, []) if g.cls is not None]
+            if not cands:
+                return []
+            rc = self._type(fn.value, f)
+            if rc is not None and rc[0] == "inst":
+                return [g for g in cands if g.cls.name == rc[1]]
+            return cands
+        return []
+
+    # ---------------------------------------------------------------- who changes the current environment
+    def _find_changers(self) -> None:
+        self.sites: dict[int, list[tuple[ast.AST, _F | None]]] = {}
+        for f in self.fns:
+            own = [(c, None) for c, s in settings_writes(f.fn) if enclosing_function(c) is f.fn and (ENV_KEY in s.quoted or (s.kind == "delete" and "where" not in s.toks))]
+            if own:
+                self.sites[id(f.fn)] = own
+        changed = True
+        while changed:
+            changed = False
+            for f in self.fns:
+                have = {id(c) for c, _t in self.sites.get(id(f.fn), [])}
+                for c in ast.walk(f.fn):
+                    if isinstance(c, ast.Call) and id(c) not in have and enclosing_function(c) is f.fn:
+                        for t in self.resolve(c, f):
+                            if t is not f and id(t.fn) in self.sites:
+                                self.sites.setdefault(id(f.fn), []).append((c, t))
+                                changed = True
+                                break
+
+    def is_changer(self, f: _F) -> bool:
+        return id(f.fn) in self.sites
+
+    def why_changer(self, f: _F, depth: int = 0) -> str:
+        c, t = self.sites[id(f.fn)][0]
+        if t is None:
+            return f"writes the settings key {ENV_KEY} itself (line {c.lineno})"
+        return f"calls {t.qn}" + (", which " + self.why_changer(t, depth + 1) if depth < 4 else "")
+
+    # ---------------------------------------------------------------- whose result is computed from it
+    def stores(self, key: tuple) -> list[tuple[_F, ast.AST, ast.AST, bool]]:
+        """(function, value, statement, whole) for every statement that puts a value into the slot: whole=True when the
+        statement rebinds it, False when it fills a container held by it."""
+        if key in self._stores:
+            return self._stores[key]
+        kind, where, name = key
+        out: list[tuple[_F, ast.AST, ast.AST, bool]] = []
+
+        def hit(e: ast.AST, g: _F) -> bool:
+            if kind == "attr":
+                return _self_attr(e, name)
+            return isinstance(e, ast.Name) and e.id == name and any(isinstance(x, ast.Global) and name in x.names for x in ast.walk(g.fn))
+
+        pool = self.methods(self.classes[where]) if kind == "attr" else [g for g in self.fns if id(g.tree) == where]
+        for g in pool:
+            for st in ast.walk(g.fn):
+                if isinstance(st, ast.Assign):
+                    for t in st.targets:
+                        for tgt, val in _pairs(t, st.value):
+                            if hit(tgt, g):
+                                out.append((g, val, st, True))
+                            elif isinstance(tgt, ast.Subscript) and hit(tgt.value, g):
+                                out.append((g, val, st, False))
+                elif isinstance(st, (ast.AnnAssign, ast.AugAssign)) and st.value is not None and hit(st.target, g):
+                    out.append((g, st.value, st, isinstance(st, ast.AnnAssign)))
+                elif isinstance(st, ast.Call) and isinstance(st.func, ast.Attribute) and st.func.attr in _FILLS and hit(st.func.value, g):
+                    for a in list(st.args) + [k.value for k in st.keywords]:
+                        out.append((g, a, st, False))
+        self._stores[key] = out
+        return out
+
+    def key_of_load(self, a: ast.AST, f: _F) -> tuple | None:
+        if f.cls is not None and _self_attr(a) and isinstance(a.ctx, ast.Load) and not any(g.fn.name == a.attr for g in self.methods(f.cls)):
+            return ("attr", f.cls.name, a.attr)
+        if isinstance(a, ast.Name) and isinstance(a.ctx, ast.Load) and a.id in self.globals_decl.get(id(f.tree), ()):
+            return ("global", id(f.tree), a.id)
+        return None
+
+    def value_slice(self, expr: ast.AST, f: _F, seen: set | None = None) -> list[tuple[_F, ast.AST]]:
+        """Every expression that may flow into expr: through locals of f (astx.dep_slice) and through the object
+        attributes / module globals it reads, into whatever any function stores there."""
+        seen = set() if seen is None else seen
+        sl = dep_slice(f.fn, expr)
+        out = [(f, e) for e in sl.exprs]
+        for e in sl.exprs:
+            for a in ast.walk(e):
+                key = self.key_of_load(a, f)
+                if key is None or key in seen:
+                    continue
+                seen.add(key)
+                for g, val, _st, _w in self.stores(key):
+                    out += self.value_slice(val, g, seen)
+        return out
+
+    def alternatives(self, e: ast.AST, f: _F, seen: frozenset = frozenset()) -> list[ast.AST]:
+        """The expressions one of which is the value of e: operands of and/or, arms of a conditional expression, the
+        assignments of a local."""
+        if isinstance(e, ast.BoolOp):
+            return [x for v in e.values for x in self.alternatives(v, f, seen)]
+        if isinstance(e, ast.IfExp):
+            return self.alternatives(e.body, f, seen) + self.alternatives(e.orelse, f, seen)
+        if isinstance(e, ast.NamedExpr):
+            return self.alternatives(e.value, f, seen)
+        if isinstance(e, ast.Name) and e.id not in seen:
+            defs = [st.value for st in ast.walk(f.fn) if isinstance(st, (ast.Assign, ast.AnnAssign, ast.NamedExpr)) and getattr(st, "value", None) is not None
+                    and any(isinstance(t, ast.Name) and t.id == e.id for t in (st.targets if isinstance(st, ast.Assign) else [st.target]))]
+            if defs:
+                return [x for d in defs for x in self.alternatives(d, f, seen | {e.id})]
+        return [e]
+
+    def reads_env_directly(self, e: ast.AST, f: _F) -> list[ast.Call]:
+        """Calls inside e that read the stored current environment: the SELECT of the settings row, or a call of a reader."""
+        out = []
+        for c in ast.walk(e):
+            if isinstance(c, ast.Call):
+                s = sql_of(c)
+                if s is not None and s.kind == "select" and s.table == "settings" and ENV_KEY in s.quoted:
+                    out.append(c)
+                elif any(id(t.fn) in self.readers for t in self.resolve(c, f)):
+                    out.append(c)
+        return out
+
+    def reader_calls(self, expr: ast.AST, f: _F) -> list[ast.Call]:
+        return [c for g, e in self.value_slice(expr, f) for c in self.reads_env_directly(e, g)]
+
+    def returns(self, f: _F) -> list[ast.AST]:
+        return [r.value for r in ast.walk(f.fn) if isinstance(r, ast.Return) and r.value is not None and enclosing_function(r) is f.fn]
+
+    def _find_readers(self) -> None:
+        self.readers: dict[int, _F] = {}
+        changed = True
+        while changed:
+            changed = False
+            for f in self.fns:
+                if id(f.fn) not in self.readers and any(self.reader_calls(v, f) for v in self.returns(f)):
+                    self.readers[id(f.fn)] = f
+                    changed = True
+
+    # ---------------------------------------------------------------- where such a result is kept
+    def _find_slots(self) -> None:
+        self.slots: dict[tuple, _Slot] = {}
+        self.feeds: dict[int, list[_Slot]] = {}
+        loads: dict[tuple, list[_F]] = {}    # slots read anywhere in what flows into a reader's result
+        instead: dict[tuple, list[_F]] = {}  # slots a reader returns as a value *in place of* a read of the settings row
+        for f in self.readers.values():
+            for v in self.returns(f):
+                for g, e in self.value_slice(v, f):
+                    for a in ast.walk(e):
+                        key = self.key_of_load(a, g)
+                        if key is not None and f not in loads.setdefault(key, []):
+                            loads[key].append(f)
+                for alt in self.alternatives(v, f):
+                    if self.reads_env_directly(alt, f):
+                        continue
+                    for a in ast.walk(alt):
+                        key = self.key_of_load(a, f)
+                        if key is None:
+                            continue
+                        p = parent(a)
+                        receiver = (isinstance(p, ast.Call) and p.func is a) or (isinstance(p, ast.Attribute) and isinstance(parent(p), ast.Call) and parent(p).func is p)
+                        if not receiver and f not in instead.setdefault(key, []):
+                            instead[key].append(f)
+        for key, uses in loads.items():
+            st = self.stores(key)
+            derived = [(g, val, s) for g, val, s, _w in st if self.reader_calls(val, g)]
+            outside = [g for g, _v, _s, _w in st if g.fn.name != "__init__"]
+            if not (derived or (outside and instead.get(key))):
+                continue
+            kind, where, name = key
+            holder = self.classes[where] if kind == "attr" else next(g.tree for g in self.fns if id(g.tree) == where)
+            if derived:
+                g, val, s = derived[0]
+                filled = f"filled in {g.qn} (line {s.lineno}) from `{ast.unparse(self.reader_calls(val, g)[0].func)}()`"
+            else:
+                filled = f"written in {outside[0].qn} and returned by {instead[key][0].qn} in place of a read of the stored current environment"
+            slot = _Slot(kind, key, holder, name, st[0][0].m, filled)
+            self.slots[key] = slot
+            for f in uses:
+                if slot not in self.feeds.setdefault(id(f.fn), []):
+                    self.feeds[id(f.fn)].append(slot)
+        for f in self.readers.values():
+            for d in f.fn.decorator_list:
+                n = last(dotted(d.func if isinstance(d, ast.Call) else d))
+                if n in MEMO_DECORATORS:
+                    holder = f.cls if f.cls is not None else f.tree
+                    slot = _Slot("memo", ("memo", id(holder), f.fn.name), holder, f.fn.name + "()", f.m, f"the result of {f.qn} is memoised by @{n}")
+                    slot.deco = n
+                    slot.fname = f.fn.name
+                    self.slots[slot.key] = slot
+                    self.feeds.setdefault(id(f.fn), []).append(slot)
+
+    def responsible(self, slot: _Slot) -> list[_F]:
+        if isinstance(slot.holder, ast.ClassDef):
+            return [g for g in self.methods(slot.holder) if self.is_changer(g)]
+        return [g for g in self.fns if g.tree is slot.holder and self.is_changer(g)]
+
+    # ---------------------------------------------------------------- what a function does to a slot
+    def classify(self, val: ast.AST, g: _F) -> str:
+        """drop: afterwards the slot holds nothing computed from an environment read earlier; refresh: it is recomputed
+        from the stored current environment in this very statement; stale: it (still) holds a value read earlier."""
+        if _fresh_constant(val):
+            return "drop"
+        if self.reads_env_directly(val, g):
+            return "refresh"
+        sl = self.value_slice(val, g)
+        if any(self.reads_env_directly(e, h) for h, e in sl) or any(self.key_of_load(a, h) in self.slots for h, e in sl for a in ast.walk(e)):
+            return "stale"
+        return "drop"
+
+    def effects(self, g: _F, slot: _Slot, depth: int = 0) -> list[tuple[ast.AST, str]]:
+        out: list[tuple[ast.AST, str]] = []
+        if slot.kind in ("attr", "global"):
+            for h, val, st, whole in self.stores(slot.key):
+                if h is g and whole:
+                    out.append((st, self.classify(val, g)))
+            name = slot.key[2]
+            hit = (lambda e: _self_attr(e, name)) if slot.kind == "attr" else (lambda e: isinstance(e, ast.Name) and e.id == name)
+            for n in ast.walk(g.fn):
+                if isinstance(n, ast.Delete) and any(hit(t) for t in n.targets):
+                    out.append((n, "drop"))
+                elif isinstance(n, ast.Call) and isinstance(n.func, ast.Attribute) and n.func.attr == "clear" and hit(n.func.value):
+                    out.append((n, "drop"))
+        else:
+            for n in ast.walk(g.fn):
+                if isinstance(n, ast.Call) and isinstance(n.func, ast.Attribute) and n.func.attr == "cache_clear" and last(dotted(n.func.value)) == slot.fname:
+                    out.append((n, "drop"))
+                elif isinstance(n, ast.Delete) and any(_self_attr(t, slot.fname) for t in n.targets):
+                    out.append((n, "drop"))
+                elif isinstance(n, ast.Call) and isinstance(n.func, ast.Attribute) and n.func.attr == "pop" and dotted(n.func.value) == "self.__dict__" \
+                        and n.args and isinstance(n.args[0], ast.Constant) and n.args[0].value == slot.fname:
+                    out.append((n, "drop"))
+        if g.cls is not None and depth < 2:
+            for n in ast.walk(g.fn):
+                if isinstance(n, ast.Call) and _self_attr(n.func):
+                    for b in self.methods(g.cls):
+                        if b.fn.name == n.func.attr and b is not g:
+                            eff = [(x, k) for x, k in self.effects(b, slot, depth + 1) if k != "stale"]
+                            if eff and self.always(b, eff):
+                                out.append((n, "drop" if all(k == "drop" for _x, k in eff) else "refresh"))
+        return out
+
+    def always(self, b: _F, eff: list[tuple[ast.AST, str]]) -> bool:
+        cfg = CFG(b.fn)
+        nodes = [n for x, _k in eff for n in cfg.node_of_containing(x)]
+        return cfg.exit not in cfg.reach([cfg.entry], blocked=nodes, labels_excluded=NOEXC)
+
+    def kept_after(self, g: _F, site: ast.AST, slot: _Slot) -> tuple[list[str], list[ast.AST]] | None:
+        """A normal path entry -> site -> exit of g on which the slot is neither dropped (anywhere) nor recomputed (after the
+        site), with the guarded resets of g that the path avoids; None when there is no such path."""
+        cfg = CFG(g.fn)
+        snodes = cfg.node_of_containing(site)
+        if not snodes:
+            raise AnchorError(f"C37.R6: the environment change at line {site.lineno} of {g.qn} has no CFG node")
+        eff = self.effects(g, slot)
+        drops = [n for x, k in eff if k == "drop" for n in cfg.node_of_containing(x)]
+        fresh = [n for x, k in eff if k == "refresh" for n in cfg.node_of_containing(x)]
+        for sn in snodes:
+            if sn in drops:
+                continue
+            before = cfg.reach([cfg.entry], blocked=drops, labels_excluded=NOEXC)
+            after = cfg.reach([sn], blocked=drops + fresh, labels_excluded=NOEXC, include_starts=False)
+            if sn in before and cfg.exit in after:
+                p1 = cfg.path(cfg.entry, sn, blocked=drops, labels_excluded=NOEXC)
+                p2 = cfg.path(sn, cfg.exit, blocked=drops + fresh, labels_excluded=NOEXC)
+                return cfg.describe_path(p1 + p2[1:]), [x for x, k in eff if k != "stale"]
+        return None
+
+
+def eval_fresh(mods: list[tuple[object, ast.AST]]):
+    """R6 on the anchored modules; yields the same items as eval_rules."""
+    fr = Freshness(mods)
+    readers = sorted(fr.readers.values(), key=lambda f: f.qn)
+    holders = {f.cls.name for f in readers if f.cls is not None}
+    changers = [f for f in fr.fns if fr.is_changer(f) and f.cls is not None and f.cls.name in holders]
+    yield ("floor", "C37.R6", READ_FLOOR, len(readers))
+    yield ("floor", "C37.R6", CHG_FLOOR, len(changers))
+    yield ("floor", "C37.R6", SLOT_FLOOR, len(fr.slots))
+    desc = ("a value computed from the stored current environment is not kept across a change of the current environment: "
+            "every method that can change it (directly or through a callee) drops the kept value on every normal path")
+    for f in readers:
+        if not fr.feeds.get(id(f.fn)):
+            yield ("ob", "C37.R6", f"recomputed-per-call:{f.qn}", f"{f.qn} derives its result from the stored current environment on every call (nothing it returns is kept on the object, in a module global or by a memoising decorator)",
+                   True, f.m, f.fn, f.fn, "", [])
+    for slot in fr.slots.values():
+        resp = fr.responsible(slot)
+        if not resp:
+            g0 = next(f for f in readers if slot in fr.feeds.get(id(f.fn), []))
+            yield ("ob", "C37.R6", f"kept-value-droppable:{slot.label}", desc, False, slot.m, g0.fn, g0.fn,
+                   f"`{slot.label}` keeps a value computed from the current environment ({slot.filled}) but no function of its holder can change the environment, so nothing ever drops it: "
+                   "after any switch / create / delete of an environment it still describes the previous one", [])
+            continue
+        for g in resp:
+            sites = fr.sites[id(g.fn)]
+            for i, (site, _t) in enumerate(sites):
+                got = fr.kept_after(g, site, slot)
+                reason = ""
+                if got is not None:
+                    guarded = got[1]
+                    reason = (f"`{slot.label}` keeps a value computed from the current environment ({slot.filled}). {g.qn} can change the current environment — it {fr.why_changer(g)} — "
+                              + ("and returns without dropping it" if not guarded else
+                                 "and its only reset of it (line " + ", ".join(str(x.lineno) for x in guarded) + ") is not on every path (it is under a test, or recomputes the value before the change); the rule does not evaluate such a test")
+                              + ". The kept value then still describes the previous environment (for a delete: one that no longer exists): current_auth_service() hands out a service bound to it, a login through that service "
+                              "stores the profile under the old url and writes its bare name into settings.current_profile, which the now-current environment resolves to a same-named profile nobody picked there. "
+                              f"Drop `{slot.label}` in {g.qn} (as the other environment-changing methods do), or do not keep it.")
+                yield ("ob", "C37.R6", f"kept-value-dropped:{slot.label}@{g.fn.name}" + (f"#{i}" if len(sites) > 1 else ""), desc, got is None, g.m, site, g.fn, reason, got[0] if got else [])
+
+
 # ------------------------------------------------------------------------------ new private static helpers folded into their callers
 class _StaticInliner(Inliner):
     """sa/inline.py folds new private helpers into their callers but leaves decorated functions alone. A private
@@ -942,6 +1465,27 @@ def run(chk) -> None:
             chk.floor("C37.R1", "planted value-dependent clear (fixture purge_environment) not accepted as the pairing clear", item[3], 1)
     for rule in ("C37.R1", "C37.R2", "C37.R3", "C37.R4", "C37.R5"):
         chk.floor(rule, "planted defects reported in the fixture", bad.get(rule, 0), 1)
+    # R6: nothing computed from the current environment is kept across a change of it
+    floors6 = {READ_FLOOR: 3, CHG_FLOOR: 5, SLOT_FLOOR: 0}  # zero kept values expected on the repo; the planted ones below must be found
+    for item in eval_fresh([(cm, cm.tree), (em, em.tree), (am, am.tree)]):
+        if item[0] == "floor":
+            chk.floor(item[1], item[2], item[3], floors6[item[2]])
+        else:
+            _k, rule, inst, desc, ok, m, node, fn, reason, path = item
+            chk.ob(rule, desc, ok, m=m, node=node, fn=fn, instance=inst, reason=reason, path=path)
+    f6 = Path(__file__).resolve().parents[2] / FIXTURE6
+    if not f6.is_file():
+        raise AnchorError(f"fixture {FIXTURE6} missing")
+    tree6 = ast.parse(f6.read_text())
+    _set_parents(tree6)
+    fm6 = _FixMod("fixture.c37.stale_cache", FIXTURE6, tree6)
+    got6 = {it[2]: it[4] for it in eval_fresh([(fm6, tree6)]) if it[0] == "ob"}
+    chk.floor("C37.R6", "planted stale kept values reported in the fixture (forgotten by a delegating changer, dropped only under a test, memoised and never cleared)",
+              sum(1 for k, ok in FIX6_EXPECT.items() if not ok and got6.get(k) is False), sum(1 for ok in FIX6_EXPECT.values() if not ok))
+    chk.floor("C37.R6", "planted kept values that every changer drops accepted in the fixture (negative control)",
+              sum(1 for k, ok in FIX6_EXPECT.items() if ok and got6.get(k) is True), sum(1 for ok in FIX6_EXPECT.values() if ok))
+    if set(got6) != set(FIX6_EXPECT):
+        raise AnchorError(f"C37.R6: the fixture yields obligations {sorted(set(got6) ^ set(FIX6_EXPECT))} that differ from the expected inventory")
     chk.observe("delete_profile clears the pointer whenever the deleted profile's *name* equals the stored name, even if it belongs to another environment: the active profile becomes none (allowed by the statement)")
     chk.observe("the two settings writes of a switch are separate transactions; a crash between them is outside the statement")
 
@@ -994,7 +1538,84 @@ def _clr(stmt: str) -> str:
     return _CLR.replace('conn.execute("DELETE FROM settings WHERE key = \'current_profile\'")', stmt)
 
 
+# ---- R6: values computed from the current environment kept on the service
+_EI = "        self.config_manager = config_manager\n"
+_CAS = "        return AuthService(self.config_manager(), self.get_current_environment())\n"
+_GCE = "        return self.config_manager().get_current_environment()\n"
+_DEL = "        return self.config_manager().delete_environment(api_url)\n"
+_IMP = "from dataclasses import replace\n"
+_SVC = "service = EnvService(config_manager)"
+_KEPT = "self._auth_service"
+_KEPT_FILL = ("        if " + _KEPT + " is None:\n            " + _KEPT + " = AuthService(\n                self.config_manager(), self.get_current_environment()\n            )\n        return " + _KEPT + "\n")
+# assembled so that it is not a word of this file (a word of this file is an anchor and is never folded)
+_H3 = "_forget" + "_bound_service"
+
+
+def _kept_service(delete: str | None = None, *, switch: str | None = None, create: str | None = None, fill: str = _KEPT_FILL, extra: list[tuple[str, str]] = ()) -> tuple[str, str]:
+    """The seeded shape: current_auth_service() keeps its AuthService on the EnvService; `switch` / `create` / `delete` are the
+    reset statements put into the three environment-changing methods (default: switch and create reset, delete does not)."""
+    rs = "        " + _KEPT + " = None\n"
+    switch = rs if switch is None else switch
+    create = rs if create is None else create
+    edits = [(_EI, _EI + "        " + _KEPT + ": AuthService | None = None\n"),
+             (_SW, _SW.replace("        return env", switch + "        return env")),
+             (_CU, _CU + create),
+             (_CAS, fill)]
+    if delete is not None:
+        edits.append((_DEL, delete))
+    return _multi(_E, edits + list(extra))
+
+
+_KEPT_ENV = [(_EI, _EI + "        self._current_env: Environment | None = None\n"),
+             (_GCE, "        if self._current_env is None:\n            self._current_env = self.config_manager().get_current_environment()\n        return self._current_env\n"),
+             (_SW, _SW.replace("        return env", "        self._current_env = None\n        return env")),
+             (_CU, _CU + "        self._current_env = None\n")]
+_WRITE_THROUGH = [(_EI, _EI + "        self._selected: Environment | None = None\n"),
+                  (_GCE, "        return self._selected or self.config_manager().get_current_environment()\n"),
+                  (_SW, _SW.replace("        return env", "        self._selected = env\n        return env")),
+                  (_CU, _CU + "        self._selected = env\n")]
+
+
+def _memo(clear_in_delete: bool) -> list[tuple[str, str]]:
+    cl = "        self.current_auth_service.cache_clear()\n"
+    return [(_IMP, "import functools\n" + _IMP),
+            ("    def current_auth_service(self) -> AuthService:\n", "    @functools.cache\n    def current_auth_service(self) -> AuthService:\n"),
+            (_SW, _SW.replace("        return env", cl + "        return env")),
+            (_CU, _CU + cl)] + ([(_DEL, cl + _DEL)] if clear_in_delete else [])
+
+
+def _global_slot(reset_in_delete: bool) -> list[tuple[str, str]]:
+    rs = "        global _bound\n        _bound = None\n"
+    return [("class EnvService:\n", "_bound: AuthService | None = None\n\n\nclass EnvService:\n"),
+            (_CAS, "        global _bound\n        if _bound is None:\n            _bound = AuthService(self.config_manager(), self.get_current_environment())\n        return _bound\n"),
+            (_SW, _SW.replace("        return env", rs + "        return env")),
+            (_CU, _CU + rs)] + ([(_DEL, rs + _DEL)] if reset_in_delete else [])
+
+
 TWINS: list[Twin] = [
+    # ---- R6 breaking: a value computed from the current environment survives a change of it
+    Twin("current_auth_service() keeps its service; delete_environment (which falls back to the default through its callee) forgets it (the seed's form)", _E, *_kept_service(), "C37.R6"),
+    Twin("get_current_environment() keeps the Environment; reset on switch/create, not on delete", _E, *_multi(_E, _KEPT_ENV), "C37.R6"),
+    Twin("write-through: the selected Environment is returned in place of a settings read; delete never touches it", _E, *_multi(_E, _WRITE_THROUGH), "C37.R6"),
+    Twin("current_auth_service memoised by functools.cache; cleared on switch/create only", _E, *_multi(_E, _memo(False)), "C37.R6"),
+    Twin("service kept in a module global; reset on switch/create only", _E, *_multi(_E, _global_slot(False)), "C37.R6"),
+    Twin("kept service dropped on create only for authenticated environments", _E, *_kept_service("        " + _KEPT + " = None\n" + _DEL, create="        if env.requires_auth:\n            " + _KEPT + " = None\n"), "C37.R6"),
+    Twin("kept service re-read before the delete instead of after it", _E, *_kept_service("        " + _KEPT + " = AuthService(self.config_manager(), self.get_current_environment())\n" + _DEL), "C37.R6"),
+    Twin("kept service dropped by delete only when nothing was deleted", _E, *_kept_service("        deleted = self.config_manager().delete_environment(api_url)\n        if not deleted:\n            " + _KEPT + " = None\n        return deleted\n"), "C37.R6"),
+    # ---- R6 benign: the same cache with every changer dropping it; things kept that are not computed from the environment
+    Twin("benign: kept service dropped by all three changers (after the delete, result through a local)", _E, *_kept_service("        deleted = self.config_manager().delete_environment(api_url)\n        " + _KEPT + " = None\n        return deleted\n"), None),
+    Twin("benign: kept service dropped before each change", _E, *_kept_service("        " + _KEPT + " = None\n" + _DEL, switch="", create="", extra=[
+        ("        self.config_manager().set_settings_current_environment(api_url)\n", "        " + _KEPT + " = None\n        self.config_manager().set_settings_current_environment(api_url)\n"),
+        ("        self.config_manager().set_settings_current_environment(env.api_url)\n", "        " + _KEPT + " = None\n        self.config_manager().set_settings_current_environment(env.api_url)\n")]), None),
+    Twin("benign: kept service dropped through one private method called by all three changers", _E, *_kept_service("        self." + _H3 + "()\n" + _DEL, switch="        self." + _H3 + "()\n", create="        self." + _H3 + "()\n", extra=[
+        ("    def current_auth_service(self) -> AuthService:\n", "    def " + _H3 + "(self) -> None:\n        " + _KEPT + " = None\n\n    def current_auth_service(self) -> AuthService:\n")]), None),
+    Twin("benign: kept service recomputed after each change", _E, *_kept_service("        deleted = self.config_manager().delete_environment(api_url)\n        " + _KEPT + " = AuthService(self.config_manager(), self.get_current_environment())\n        return deleted\n"), None),
+    Twin("benign: functools.cache cleared by all three changers", _E, *_multi(_E, _memo(True)), None),
+    Twin("benign: module-global service reset by all three changers", _E, *_multi(_E, _global_slot(True)), None),
+    Twin("benign: the ConfigManager (not computed from the environment) is kept on the service", _E, *_multi(_E, [
+        (_EI, _EI + "        self._manager: ConfigManager | None = None\n"),
+        (_CAS, "        if self._manager is None:\n            self._manager = self.config_manager()\n        return AuthService(self._manager, self.get_current_environment())\n")]), None),
+    Twin("benign: Environment kept by get_current_environment, dropped by all three changers", _E, *_multi(_E, _KEPT_ENV + [(_DEL, "        self._current_env = None\n" + _DEL)]), None),
     # ---- R1: the clear that pairs an environment change must not depend on the stored name or on the profiles table
     Twin("delete_environment clears the pointer only if it names a profile of the removed environment", _C, *_multi(_C, [
         (_CLR, "\n            conn.commit()\n            return True\n"),
